@@ -158,6 +158,10 @@ func (f *File) isDotImport(path string) bool {
 		// the "C" pseudo-package is always referred to as C
 		return false
 	}
+	if def, ok := f.imports[path]; ok && def.name != "" && def.name != "_" {
+		// once a path has been rendered, the name it was registered with wins over later hints
+		return def.name == "."
+	}
 	if id, ok := f.hints[path]; ok {
 		return id.name == "." && id.alias
 	}
